@@ -102,7 +102,8 @@ deriving Repr, Inhabited
 
 /-- how `run()` ends: the exception that propagates, if any. -/
 inductive Raised
-  | env                 -- an exception raised by the environment
+  | env                 -- an exception raised by the environment inside the loop
+  | envFin              -- an exception raised by the environment inside the `finally` block
   | noMetrics (t : Nat) -- `ValueError("trial t completed and no metrics got observed")`
   | assertion           -- `assert len(running_trials_ids) <= self.n_workers`
   | keyError            -- `trial_status_dict[trial_id]` for a result of a trial that was not polled
@@ -254,7 +255,7 @@ def pending (s : LState) : Call :=
 def raiseFin (s : LState) (e : Raised) : LState := { s with err := some e, pc := .finTuningEnd }
 
 /-- an exception raised inside the `finally` block replaces whatever was in flight. -/
-def exitRaise (s : LState) : LState := { s with err := some .env, pc := .done }
+def exitRaise (s : LState) : LState := { s with err := some .envFin, pc := .done }
 
 /-- `_stop_condition()` given the clock reading. -/
 def stopCond (s : LState) (clock : Rat) : Bool :=
